@@ -108,7 +108,7 @@ def _check_chunk_flow(rep, m, st, var, key):
         gj = [n for n in g.nodes if n.ast is joins[0]]
         rng = g.count_range(lambda n: n in gj, src=node, edge_ok=NORMAL)
         if rng is None or rng[0] < 1:
-            early = [r for r in walk_no_nested(m) if isinstance(r, ast.Return) and r.lineno > st.lineno]
+            early = [r for r in walk_no_nested(m) if isinstance(r, ast.Return) and r.pos > st.pos]
             rep.violated(key, joins[0], 'some path leaves the function after reading without appending the collected chunks to the buffer')
             return
     rep.holds(key, st, 'every non-empty chunk is collected and appended to the buffer on every path')
@@ -147,7 +147,7 @@ def _check_lookahead(rep, m, st, var, key):
         rep.violated(key, iff, 'a look-ahead character that is not LF is dropped (it must become the start of the remaining buffer)')
         return
     rest_var = dotted(keeps[0].targets[0])
-    stores = [s for s in _self_stores(m, 'buffer') if isinstance(s, ast.Assign) and dotted(s.value) == rest_var and s.lineno > iff.lineno]
+    stores = [s for s in _self_stores(m, 'buffer') if isinstance(s, ast.Assign) and dotted(s.value) == rest_var and s.pos > iff.pos]
     if rest_var != 'self.buffer' and not stores:
         rep.violated(key, keeps[0], 'the kept look-ahead character never reaches the buffer')
         return
@@ -363,11 +363,26 @@ def rule_rd_decode(cx, rep, port):
         # a streaming decode keeps an incomplete trailing sequence inside the decoder: outside the chunk handler (whose
         # end-of-stream counterpart flushes) it must be followed by a flush in the same function, or that sequence is never reported
         chunk_home = p.func('rbql_csv', 'CSVRecordIterator.process_data_stream_chunk')
+        # helpers of the chunk handler: methods that are called from nowhere else
+        methods_ = {m.name: m for m in it.body if isinstance(m, ast.FunctionDef)}
+        callers = {}
+        for m in methods_.values():
+            for c in ast.walk(m):
+                if isinstance(c, ast.Attribute) and isinstance(c.value, ast.Name) and c.value.id == 'self' and c.attr in methods_ and c.attr != m.name:
+                    callers.setdefault(c.attr, set()).add(m.name)
+        chunk_homes = {chunk_home.name}
+        grew = True
+        while grew:
+            grew = False
+            for name_, cs_ in callers.items():
+                if name_ not in chunk_homes and cs_ and cs_ <= chunk_homes:
+                    chunk_homes.add(name_)
+                    grew = True
         for d in chunk_decs:
             opts = d.args[1] if len(d.args) > 1 and isinstance(d.args[1], ast.Dict) else None
             od = {k.value: v for k, v in zip(opts.keys, opts.values)} if opts is not None else {}
             home = enclosing_func(d)
-            if home is chunk_home or not ('stream' in od and is_true(od['stream'])):
+            if home is chunk_home or (home is not None and home.name in chunk_homes and methods_.get(home.name) is home) or not ('stream' in od and is_true(od['stream'])):
                 continue
             g = cfgmod.CFG(home)
             dn = [n for n in g.nodes if cfgmod.node_contains(n, lambda x, d=d: x is d)]
@@ -379,7 +394,7 @@ def rule_rd_decode(cx, rep, port):
         rep.decide(bool(fl), 'final flush', fl[0] if fl else end, 'the decoder is flushed at end of stream', 'the decoder is never flushed at end of stream: an incomplete trailing character goes unnoticed')
         # decode errors are mapped to the IO error
         chunkfn = p.func('rbql_csv', 'CSVRecordIterator.process_data_stream_chunk')
-        tries = [t for t in ast.walk(chunkfn) if isinstance(t, ast.Try)]
+        tries = [t for name_ in sorted(chunk_homes) for t in ast.walk(methods_[name_]) if isinstance(t, ast.Try)]
         covered = [t for t in tries if any(d in list(ast.walk(ast.Module(body=t.body, type_ignores=[]))) for d in chunk_decs)]
         maps = covered and any('RbqlIOHandlingError' in node_text(h, 2000) for t in covered for h in t.handlers)
         rep.decide(bool(maps), 'decode error mapping', covered[0] if covered else chunkfn, 'decode failures become RbqlIOHandlingError', 'a decode failure is not mapped to RbqlIOHandlingError')
@@ -789,102 +804,160 @@ def _comment_escape_path(g, src, dst, line, refetch=()):
     return False
 
 
+def _rfc_py_model(cx, rep, p, fd):
+    """quoted_rfc record assembly (Python) decided on the abstract transition system of get_row_rfc: each physical line read is
+    end-of-input / a line with an even / odd number of quotes (the first one: comment or not); every sequence of such reads up to
+    the bound is explored and the record returned is compared with the one RFC assembly requires"""
+    from .. import absexec as AX
+    selfv = AX.Abs('Self')
+    # what get_row_simple itself is built from: taking lines from these directly bypasses its line counting, BOM removal and decode-error translation
+    simple = p.func('rbql_csv', 'CSVRecordIterator.get_row_simple')
+    primitives = {c.func.attr for c in ast.walk(simple) if isinstance(c, ast.Call) and isinstance(c.func, ast.Attribute) and is_name(c.func.value, 'self')}
+    bypass = []
+
+    def on_attr(ex, node, obj, attr):
+        if obj is selfv and attr == 'comment_prefix':
+            return ex.choose('prefix', [None, lambda: AX.Abs('Prefix')])
+        if obj is selfv and p.func('rbql_csv', 'CSVRecordIterator.' + attr, required=False) is None:
+            return AX.Abs('Env', name=attr)
+        return AX.NOT_HANDLED
+
+    def on_call(ex, node, fname, recv, args):
+        m = fname.split('.')[-1]
+        if recv is selfv and m == 'get_row_simple' and not args:
+            first = not any(lab == 'read' for lab, _, _ in ex.run.choices)
+            if first:
+                opts = [None] + [(lambda o=o, c=c: AX.Abs('Line', odd=o, comment=c)) for o in (False, True) for c in (False, True)]
+            else:
+                opts = [None] + [(lambda o=o: AX.Abs('Line', odd=o, comment=False)) for o in (False, True)]
+            return ex.choose('read', opts)
+        if recv is selfv and m in primitives:
+            bypass.append((m, node))
+            return ex.choose('read', [None] + [(lambda o=o: AX.Abs('Line', odd=o, comment=False)) for o in (False, True)])
+        if isinstance(recv, AX.Abs) and recv.kind == 'Line':
+            if m == 'count' and len(args) == 1 and args[0] == '"':
+                return AX.Abs('Count', odd=recv.props['odd'])
+            if m in ('startswith', 'startsWith') and len(args) == 1 and isinstance(args[0], AX.Abs) and args[0].kind == 'Prefix':
+                return recv.props['comment']
+            raise Undecided('operation {} on a physical line is outside the model'.format(m), node)
+        return AX.NOT_HANDLED
+    ex = AX.Explorer(p, 'rbql_csv', on_call=on_call, on_attr=on_attr, max_choices=5)
+    runs, cut = ex.explore(fd, [selfv], cls='CSVRecordIterator')
+
+    def flat(v):
+        """a returned record as the sequence of its pieces: lines and separators"""
+        if isinstance(v, AX.Abs) and v.kind == 'Joined':
+            out = []
+            for i, it in enumerate(v.props['items']):
+                if i:
+                    out.append(v.props['sep'])
+                out.extend(flat(it))
+            return out
+        if isinstance(v, AX.Abs) and v.kind == 'Text':
+            out = []
+            for it in v.props['parts']:
+                out.extend(flat(it))
+            return out
+        return [v]
+
+    def show(seq):
+        return ' '.join('EOF' if x is None else ('{}{}'.format('odd' if x.props['odd'] else 'even', '(comment)' if x.props.get('comment') else '') if isinstance(x, AX.Abs) and x.kind == 'Line' else repr(x)) for x in seq)
+    bad = {}
+    n = 0
+    # environment flags whose meaning is known: none of them says anything about the lines still to come
+    KNOWN_ENV = {'exhausted': 'the source being exhausted does not mean that no buffered line follows'}
+    und = []
+
+    class _B(dict):
+        def setdefault(self, k, v):
+            envs = [lab[4:] for lab, _, _ in cur.choices if lab.startswith('env:')]
+            if [e for e in envs if e not in KNOWN_ENV]:
+                und.append('{} (depends on self.{})'.format(v, '/'.join(envs)))
+                return None
+            if envs:
+                v = '{} [with self.{} = {}: {}]'.format(v, envs[0], [val for lab, _, val in cur.choices if lab == 'env:' + envs[0]][0], KNOWN_ENV[envs[0]])
+            return dict.setdefault(self, k, v)
+    bad = _B()
+    for r in sorted(runs, key=lambda r_: len(r_.choices)):
+        cur = r
+        reads = [v for lab, _, v in r.choices if lab == 'read']
+        prefix = [v for lab, _, v in r.choices if lab == 'prefix']
+        has_prefix = bool(prefix) and prefix[0] is not None
+        if not reads:
+            bad.setdefault('first line', 'a record is produced without reading a line')
+            continue
+        n += 1
+        r1 = reads[0]
+        if r1 is None:
+            want, used, cls = [None], 1, 'first line'
+        elif (has_prefix and r1.props['comment']) or not r1.props['odd']:
+            want, used, cls = [r1], 1, 'first line'
+        else:
+            items = [r1]
+            used = 1
+            cls = 'continuation'
+            closed = False
+            for x in reads[1:]:
+                used += 1
+                if x is None:
+                    cls = 'unfinished record'
+                    closed = True
+                    break
+                items.append(x)
+                if x.props['odd']:
+                    closed = True
+                    break
+            if not closed:
+                # the implementation stopped reading although the quote is still open and input remains
+                bad.setdefault('continuation', 'after lines [{}] the record is ended although the open quote is not closed and the input is not exhausted'.format(show(reads)))
+                continue
+            want = []
+            for i, it in enumerate(items):
+                if i:
+                    want.append('\n')
+                want.append(it)
+        kind, val, node = r.outcome
+        if kind != 'return':
+            bad.setdefault(cls, 'for lines [{}] an error is raised instead of returning the record'.format(show(reads)))
+            continue
+        got = flat(val)
+        if len(reads) > used:
+            bad.setdefault(cls, 'for lines [{}] reading goes on after the record is complete'.format(show(reads)))
+            continue
+        same = len(got) == len(want) and all((a is b) or (isinstance(a, str) and isinstance(b, str) and a == b) for a, b in zip(got, want))
+        if not same:
+            glines = [x for x in got if isinstance(x, AX.Abs)]
+            wlines = [x for x in want if isinstance(x, AX.Abs)]
+            if cls != 'first line' and len(glines) == len(wlines) and all(a is b for a, b in zip(glines, wlines)):
+                seps = sorted({x for x in got if isinstance(x, str)})
+                bad.setdefault('line joining', 'physical lines of a multi-line record are joined with {!r} instead of LF'.format(seps[0] if seps else ''))
+            elif cls != 'first line' and len(glines) < len(wlines):
+                bad.setdefault('line collection' if cls == 'continuation' else cls, 'for lines [{}] the record returned is [{}]: {}'.format(show(reads), show(got), 'an unfinished multi-line record at end of input is dropped or truncated' if cls == 'unfinished record' else 'continuation lines are not all collected'))
+            else:
+                bad.setdefault(cls, 'for lines [{}] the record returned is [{}] instead of [{}]'.format(show(reads), show(got), show(want)))
+    if bypass:
+        rep.violated('line source', bypass[0][1], 'get_row_rfc takes physical lines from {}() directly and bypasses get_row_simple (line counting, BOM removal, decode-error translation)'.format(bypass[0][0]))
+        return
+    if und and not bad:
+        rep.undecided('quote parity', fd, und[0])
+        return
+    if n < 20 and not bad:
+        rep.undecided('quote parity', fd, 'abstract exploration covered only {} line sequences'.format(n))
+        return
+    rep.holds('line source', fd, 'every physical line is obtained through get_row_simple')
+    for cls, good in (('first line', 'end of input gives None; a comment line or a line with balanced quotes is a complete record'),
+                      ('continuation', 'the record ends with the first continuation line that has an odd number of quotes'),
+                      ('unfinished record', 'an unfinished record at end of input is still returned'),
+                      ('line joining', 'physical lines are joined with LF'),
+                      ('line collection', 'every continuation line is collected')):
+        rep.decide(cls not in bad, cls, fd, '{} ({} abstract line sequences explored, {} cut at the bound)'.format(good, n, cut), bad.get(cls, ''))
+
+
 def rule_rd_rfc(cx, rep, port):
     p = cx.port(port)
     if port == 'py':
         fd = p.func('rbql_csv', 'CSVRecordIterator.get_row_rfc')
-        parity = []
-        for n in walk_no_nested(fd):
-            if not isinstance(n, ast.If):
-                continue
-            # the parity comparison may be the whole test or one disjunct of it (`is a comment or count % 2 == 0`)
-            cands = [n.test] + (list(n.test.values) if isinstance(n.test, ast.BoolOp) and isinstance(n.test.op, ast.Or) else [])
-            for t_ in cands:
-                if isinstance(t_, ast.Compare) and isinstance(t_.left, ast.BinOp) and isinstance(t_.left.op, ast.Mod) and isinstance(t_.comparators[0], ast.Constant):
-                    cnt = t_.left.left
-                    if isinstance(cnt, ast.Call) and isinstance(cnt.func, ast.Attribute) and cnt.func.attr == 'count' and cnt.args and isinstance(cnt.args[0], ast.Constant) and cnt.args[0].value == '"':
-                        parity.append((n, t_.comparators[0].value, isinstance(t_.ops[0], ast.Eq), dotted(cnt.func.value)))
-                        break
-        if len(parity) != 2:
-            rep.violated('quote parity', fd, 'quoted_rfc record assembly does not test the parity of the quote count of the first and of each continuation line ({} tests found)'.format(len(parity)))
-            return
-        (n1, v1, eq1, s1), (n2, v2, eq2, s2) = parity
-        g = cfgmod.CFG(fd)
-        def _is_read(x):
-            # self.get_row_simple()  or the iterator form  iter(self.get_row_simple, None)
-            if isinstance(x, ast.Call) and (call_name(x) or '').endswith('get_row_simple'):
-                return True
-            return isinstance(x, ast.Call) and dotted(x.func) == 'iter' and len(x.args) == 2 and (dotted(x.args[0]) or '').endswith('get_row_simple')
-        reads = lambda n: (n.kind == 'for') or cfgmod.node_contains(n, _is_read)  # noqa: E731
-        is_ret = lambda n: isinstance(n.ast, ast.Return) and n.ast.value is not None and not is_none(n.ast.value)  # noqa: E731
-
-        def ends_record(if_node):
-            """when the test holds the function returns a record without reading another line (return in place, or break + return)"""
-            tn = [n for n in g.nodes if n.kind == 'test' and n.ast is if_node.test]
-            if not tn:
-                return False
-            succ = [s_ for s_, lab in tn[0].succ if lab == 'T']
-            return bool(succ) and all((is_ret(s_) or g.exists_path(s_, is_ret, avoid=reads)) and not (reads(s_) or g.exists_path(s_, reads, avoid=is_ret)) for s_ in succ)
-        first_ok = (v1 == 0 and eq1) and ends_record(n1)
-        cont_ok = (v2 == 1 and eq2) and ends_record(n2)
-        rep.decide(first_ok, 'first line', n1, 'a first line with an even number of quotes is a complete record', 'the first-line test `{}` does not return lines with balanced quotes as complete records'.format(node_text(n1.test)))
-        # ... and on no other ground: every `return <first line>` is guarded by the line's own parity, its comment status or
-        # its absence - not by some remembered property of the buffer, which depends on how the input was cut into reads
-        first_vars = [dotted(n_.targets[0]) for n_ in fd.body if isinstance(n_, ast.Assign) and len(n_.targets) == 1 and isinstance(n_.value, ast.Call) and _is_read(n_.value)]
-        if first_vars:
-            fv = first_vars[0]
-            for r_ in walk_no_nested(fd):
-                if not (isinstance(r_, ast.Return) and r_.value is not None and dotted(r_.value) == fv):
-                    continue
-                ok_guard = False
-                tests_ = []
-                ch_, q_ = r_, getattr(r_, 'parent', None)
-                while q_ is not None and q_ is not fd:
-                    if isinstance(q_, ast.If) and ch_ in q_.body:
-                        tests_.append(q_.test)
-                        tt = node_text(q_.test, 300)
-                        if ('% 2' in tt and fv in tt) or 'startswith' in tt or (isinstance(q_.test, ast.Compare) and dotted(q_.test.left) == fv and is_none(q_.test.comparators[0])):
-                            ok_guard = True
-                    if isinstance(q_, (ast.For, ast.While)):
-                        ok_guard = True      # inside the continuation loop: judged by the continuation test
-                    ch_, q_ = q_, getattr(q_, 'parent', None)
-                if not ok_guard and tests_:
-                    rep.violated('first line grounds', r_, 'the first line is returned as a complete record when `{}`, which is neither its quote parity nor its comment status: whether a record that continues on the next line is torn apart depends on what happened to be buffered'.format(node_text(tests_[0], 60)))
-                    return
-        rep.decide(cont_ok, 'continuation', n2, 'the record ends with the first continuation line that has an odd number of quotes', 'the continuation test `{}` does not end the record at the line that closes the open quote'.format(node_text(n2.test)))
-        joins = [c for c in walk_no_nested(fd) if isinstance(c, ast.Call) and isinstance(c.func, ast.Attribute) and c.func.attr == 'join' and isinstance(c.func.value, ast.Constant)]
-        rep.decide(joins and all(j.func.value.value == '\n' for j in joins), 'line joining', joins[0] if joins else fd, 'physical lines are joined with LF', 'physical lines of a multi-line record are joined with {!r} instead of LF'.format(joins[0].func.value.value if joins else None))
-        eofret = [n for n in walk_no_nested(fd) if isinstance(n, ast.If) and isinstance(n.test, ast.Compare) and is_none(n.test.comparators[0]) and dotted(n.test.left) == 'row']
-        sentinel_loops = [n for n in walk_no_nested(fd) if isinstance(n, ast.For) and isinstance(n.iter, ast.Call) and dotted(n.iter.func) == 'iter' and len(n.iter.args) == 2 and is_none(n.iter.args[1]) and (dotted(n.iter.args[0]) or '').endswith('get_row_simple')]
-        if not eofret and len(sentinel_loops) == 1:
-            # `for row in iter(self.get_row_simple, None)`: the loop ends at end of input; what follows it must return the collected lines
-            ln = [n_ for n_ in g.nodes if n_.kind == 'for' and n_.ast is sentinel_loops[0]]
-            after = [s_ for s_, lab in ln[0].succ if lab in ('F', 'exhausted', 'done', '')] if ln else []
-            ok_eof = bool(ln) and g.exists_path(ln[0], is_ret, avoid=lambda n_: n_ is not ln[0] and cfgmod.node_contains(n_, _is_read), edge_ok=lambda a, b, lab: not (a is ln[0] and b in [x for x, l2 in ln[0].succ if any(x.ast is st_ for st_ in sentinel_loops[0].body)]))
-            rep.decide(ok_eof, 'unfinished record', sentinel_loops[0], 'an unfinished record at end of input is still returned', 'an unfinished multi-line record at end of input is dropped')
-        elif eofret:
-            rep.decide(ends_record(eofret[0]), 'unfinished record', eofret[0], 'an unfinished record at end of input is still returned', 'an unfinished multi-line record at end of input is dropped')
-        else:
-            # end of input established by a loop condition (`while row is not None:`) or any other test of the continuation line
-            # against None: from the "is None" side a record is returned without another read
-            cont_reads = [n_ for n_ in g.nodes if n_.kind == 'stmt' and isinstance(n_.ast, ast.Assign) and cfgmod.node_contains(n_, _is_read) and dotted(n_.ast.targets[0]) != dotted(fd.body[0].targets[0] if isinstance(fd.body[0], ast.Assign) else None)]
-            cvars = {dotted(n_.ast.targets[0]) for n_ in cont_reads}
-            tests = []
-            for n_ in g.nodes:
-                if n_.kind == 'test':
-                    for t_ in ([n_.ast] + (list(n_.ast.values) if isinstance(n_.ast, ast.BoolOp) else [])):
-                        if isinstance(t_, ast.Compare) and len(t_.ops) == 1 and is_none(t_.comparators[0]) and dotted(t_.left) in cvars and isinstance(t_.ops[0], (ast.Is, ast.IsNot, ast.Eq, ast.NotEq)):
-                            tests.append((n_, 'T' if isinstance(t_.ops[0], (ast.Is, ast.Eq)) else 'F'))
-            if not tests:
-                rep.undecided('unfinished record', fd, 'end-of-input test of the continuation line not recognised')
-            else:
-                ok_eof = True
-                for n_, side in tests:
-                    succ = [s_ for s_, lab in n_.succ if lab == side]
-                    ok_eof = ok_eof and bool(succ) and all((is_ret(s_) or g.exists_path(s_, is_ret, avoid=reads)) and not (reads(s_) or g.exists_path(s_, reads, avoid=is_ret)) for s_ in succ)
-                rep.decide(ok_eof, 'unfinished record', tests[0][0].ast, 'an unfinished record at end of input is still returned', 'an unfinished multi-line record at end of input is dropped')
-        apps = [c for c in walk_no_nested(fd) if isinstance(c, ast.Call) and isinstance(c.func, ast.Attribute) and c.func.attr == 'append']
-        rep.decide(len(apps) == 1, 'line collection', apps[0] if apps else fd, 'every continuation line is collected', 'continuation lines are not all collected')
+        _rfc_py_model(cx, rep, p, fd)
     else:
         fd = p.func('csv_utils', 'MultilineRecordAggregator.add_line')
         full = [n for n in walk_no_nested(fd) if isinstance(n, ast.Assign) and dotted(n.targets[0]) == 'self.has_full_record']
@@ -964,7 +1037,7 @@ def rule_rd_rfc(cx, rep, port):
         okp = len(par) == 1 and '% 2 == 1' in node_text(par[0].value)
         rep.decide(okp, 'parity computation', par[0] if par else fd, 'odd number of double quotes', 'quote parity is not computed as count % 2 == 1')
         push = [c for c in walk_no_nested(fd) if isinstance(c, ast.Call) and isinstance(c.func, ast.Attribute) and c.func.attr == 'push']
-        rep.decide(len(push) == 1 and all(push[0].lineno < f_.lineno for f_ in full), 'line collection', push[0] if push else fd, 'the line is collected before completeness is evaluated', 'the line is not collected before the completeness test')
+        rep.decide(len(push) == 1 and all(push[0].pos < f_.pos for f_ in full), 'line collection', push[0] if push else fd, 'the line is collected before completeness is evaluated', 'the line is not collected before the completeness test')
         it = p.func('rbql_csv', 'CSVRecordIterator.process_partial_rfc_record_line')
         gl = [c for c in ast.walk(it) if isinstance(c, ast.Call) and (call_name(c) or '').endswith('get_full_line')]
         rep.decide(gl and all(isinstance(c.args[0], ast.Constant) and c.args[0].value == '\n' for c in gl), 'line joining', gl[0] if gl else it, 'physical lines are joined with LF', 'physical lines of a multi-line record are not joined with LF')
@@ -1095,7 +1168,7 @@ def rule_rd_replay(cx, rep, port):
         init = p.func('rbql_csv', 'CSVRecordIterator.__init__')
         pre = [n for n in walk_no_nested(init) if isinstance(n, ast.Assign) and dotted(n.targets[0]) == 'self.first_record' and isinstance(n.value, ast.Call) and call_name(n.value) == 'self.get_record']
         em = [n for n in walk_no_nested(init) if isinstance(n, ast.Assign) and dotted(n.targets[0]) == 'self.first_record_should_be_emitted']
-        ok2 = len(pre) == 1 and any(e.lineno > pre[0].lineno and negated(e.value) is not None for e in em) and any(e.lineno < pre[0].lineno and is_false(e.value) for e in em)
+        ok2 = len(pre) == 1 and any(e.pos > pre[0].pos and negated(e.value) is not None for e in em) and any(e.pos < pre[0].pos and is_false(e.value) for e in em)
         rep.decide(ok2, 'pre-read', pre[0] if pre else init, 'first record is pre-read with the replay flag off, then the flag becomes `not has_header`', 'the constructor does not pre-read the first record with the replay flag off and then set it to `not has_header`')
     else:
         fd = p.func('rbql_csv', 'CSVRecordIterator.try_resolve_next_record')
@@ -1174,7 +1247,7 @@ for i in range(first_line_index, len(lines)):
     rep.decide(okpre, 'carry-over prepend', pre[0] if pre else fd, 'the carried partial line is prepended to the first line of the chunk', 'the partial line carried from the previous chunk is not prepended (in this order) to the first line of the new chunk')
     # partial = lines.pop()
     pop = [n for n in body if isinstance(n, ast.Assign) and dotted(n.targets[0]) == 'self.partially_decoded_line' and isinstance(n.value, ast.Call) and isinstance(n.value.func, ast.Attribute) and n.value.func.attr == 'pop' and dotted(n.value.func.value) == lines and not n.value.args]
-    rep.decide(len(pop) == 1 and (not pre or pop[0].lineno > pre[0].lineno), 'carry-over save', pop[0] if pop else fd, 'the last (possibly incomplete) line is kept for the next chunk', 'the last, possibly incomplete line of the chunk is not kept as the carry-over (lines.pop())')
+    rep.decide(len(pop) == 1 and (not pre or pop[0].pos > pre[0].pos), 'carry-over save', pop[0] if pop else fd, 'the last (possibly incomplete) line is kept for the next chunk', 'the last, possibly incomplete line of the chunk is not kept as the carry-over (lines.pop())')
     stores = [n for n in body if isinstance(n, (ast.Assign, ast.AugAssign)) and dotted(n.targets[0] if isinstance(n, ast.Assign) else n.target) == 'self.partially_decoded_line']
     rep.decide(len(stores) == 1, 'carry-over stores', stores[-1] if stores else fd, 'single store to the carry-over per chunk', 'the carry-over is assigned {} times per chunk'.format(len(stores)))
     # loop: for i in range(first_line_index, len(lines)): process_line(lines[i])
@@ -1182,14 +1255,14 @@ for i in range(first_line_index, len(lines)):
     okloop = False
     if len(loops) == 1 and isinstance(loops[0].iter, ast.Call) and dotted(loops[0].iter.func) == 'range':
         a, b = loops[0].iter.args
-        okloop = is_name(a, 'first_line_index') and node_text(b) == 'len({})'.format(lines) and (not pop or loops[0].lineno > pop[0].lineno)
+        okloop = is_name(a, 'first_line_index') and node_text(b) == 'len({})'.format(lines) and (not pop or loops[0].pos > pop[0].pos)
         calls = [c for c in ast.walk(loops[0]) if isinstance(c, ast.Call) and call_name(c) == 'self.process_line']
         okloop = okloop and len(calls) == 1 and node_text(calls[0].args[0]) == '{}[{}]'.format(lines, loops[0].target.id)
     if len(loops) == 1 and not okloop and isinstance(loops[0].target, ast.Name):
         it_ = loops[0].iter
         tail = (isinstance(it_, ast.Subscript) and dotted(it_.value) == lines and isinstance(it_.slice, ast.Slice) and is_name(it_.slice.lower, 'first_line_index') and it_.slice.upper is None and it_.slice.step is None) or (isinstance(it_, ast.Call) and isinstance(it_.func, ast.Attribute) and it_.func.attr == 'slice' and dotted(it_.func.value) == lines and len(it_.args) == 1 and is_name(it_.args[0], 'first_line_index'))
         calls = [c for c in ast.walk(loops[0]) if isinstance(c, ast.Call) and call_name(c) == 'self.process_line']
-        okloop = tail and len(calls) == 1 and is_name(calls[0].args[0], loops[0].target.id) and (not pop or loops[0].lineno > pop[0].lineno)
+        okloop = tail and len(calls) == 1 and is_name(calls[0].args[0], loops[0].target.id) and (not pop or loops[0].pos > pop[0].pos)
     rep.decide(okloop, 'complete lines', loops[0] if loops else fd, 'every complete line is processed once, in order', 'complete lines of the chunk are not all processed once, in order, after the carry-over was removed')
     # CR/LF across chunks
     fi = [n for n in body if isinstance(n, ast.Assign) and is_name(n.targets[0], 'first_line_index')]
@@ -1199,7 +1272,7 @@ for i in range(first_line_index, len(lines)):
     oklf = len(lf) == 1 and "== '\\n'" in node_text(lf[0].value) and '[0]' in node_text(lf[0].value)
     rep.decide(oklf, 'leading LF test', lf[0] if lf else fd, 'tests the first decoded character for LF', 'the leading-LF test does not look at the first decoded character')
     cr = [n for n in body if isinstance(n, ast.Assign) and dotted(n.targets[0]) == 'self.partially_decoded_line_ends_with_cr']
-    okcr = len(cr) == 1 and "== '\\r'" in node_text(cr[0].value) and '- 1]' in node_text(cr[0].value) and (not fi or cr[0].lineno > fi[0].lineno)
+    okcr = len(cr) == 1 and "== '\\r'" in node_text(cr[0].value) and '- 1]' in node_text(cr[0].value) and (not fi or cr[0].pos > fi[0].pos)
     rep.decide(okcr, 'trailing CR flag', cr[0] if cr else fd, 'flag := chunk ends with CR, updated after the previous value was used', 'the ends-with-CR flag is not recomputed from the last character of every chunk after its previous value was consumed')
     _jschunk_rest(cx, rep, p)
 
@@ -1264,3 +1337,75 @@ def _jschunk_rest(cx, rep, p):
             tests = {id(n) for n, _ in empties}
             other_way = gq.exists_path(gq.entry, lambda n: n is rn[0], edge_ok=lambda a, b, lab: not (id(a) in tests and (id(a), lab) in allowed))
             rep.decide(not other_way, 'record queue refill', rev[0], 'the pull stack is refilled (reversed push stack) only when it is empty', 'the pull stack is refilled while it still holds older records')
+
+
+def _private_helpers(cls, root_name):
+    """methods of cls reachable from root_name that are called from nowhere else (helpers the root was split into)"""
+    methods_ = {m.name: m for m in cls.body if isinstance(m, ast.FunctionDef)}
+    callers = {}
+    for m in methods_.values():
+        for c in ast.walk(m):
+            if isinstance(c, ast.Attribute) and isinstance(c.value, ast.Name) and c.value.id == 'self' and c.attr in methods_ and c.attr != m.name:
+                callers.setdefault(c.attr, set()).add(m.name)
+    homes = {root_name}
+    grew = True
+    while grew:
+        grew = False
+        for name_, cs_ in callers.items():
+            if name_ not in homes and cs_ and cs_ <= homes:
+                homes.add(name_)
+                grew = True
+    return homes, methods_
+
+
+def rule_rd_chunkstate(cx, rep, port='js'):
+    """information flow: what the chunk handler remembers about a chunk (attributes it assigns from the chunk's data) may be read only
+    by the chunk handler itself, its end-of-stream counterpart and the constructor.  Read anywhere else, line processing depends on
+    where the stream was cut into chunks."""
+    p = cx.js
+    it = p.cls('rbql_csv', 'CSVRecordIterator')
+    homes, methods_ = _private_helpers(it, 'process_data_stream_chunk')
+    if 'process_data_stream_chunk' not in methods_:
+        raise Undecided('anchor vanished: CSVRecordIterator.process_data_stream_chunk', it)
+    chunk_state = {}
+    for name_ in sorted(homes):
+        m = methods_[name_]
+        tainted = {a.arg for a in m.args.args if a.arg not in ('self', 'this')}
+        grew = True
+        assigns = [n for n in walk_no_nested(m) if isinstance(n, (ast.Assign, ast.AugAssign))]
+        while grew:
+            grew = False
+            for n in assigns:
+                val = n.value
+                if not (names_in(val) & tainted):
+                    continue
+                tgts = n.targets if isinstance(n, ast.Assign) else [n.target]
+                for t in tgts:
+                    for x in ast.walk(t):
+                        if isinstance(x, ast.Name) and isinstance(x.ctx, ast.Store) and x.id not in tainted:
+                            tainted.add(x.id)
+                            grew = True
+        for n in assigns:
+            tgts = n.targets if isinstance(n, ast.Assign) else [n.target]
+            for t in tgts:
+                for x in ([t] + (list(t.elts) if isinstance(t, (ast.Tuple, ast.List)) else [])):
+                    d = dotted(x) or ''
+                    if d.startswith('self.') and d.count('.') == 1 and (names_in(n.value) & tainted):
+                        chunk_state.setdefault(d[5:], n)
+    if not chunk_state:
+        rep.undecided('chunk state', methods_['process_data_stream_chunk'], 'the chunk handler stores nothing derived from the chunk (carry-over of the unfinished line not found)')
+        return
+    allowed_readers = set(homes) | {'process_data_stream_end', 'constructor', '__init__', 'init'}
+    allowed_readers |= _private_helpers(it, 'process_data_stream_end')[0]
+    bad = []
+    for attr, store in sorted(chunk_state.items()):
+        for name_, m in methods_.items():
+            if name_ in allowed_readers:
+                continue
+            for x in ast.walk(m):
+                if isinstance(x, ast.Attribute) and x.attr == attr and isinstance(x.ctx, ast.Load) and is_name(x.value, 'self'):
+                    bad.append((attr, name_, x, store))
+    for attr, name_, x, store in bad[:3]:
+        rep.violated('chunk state read in {}'.format(name_), x, 'self.{} is assigned from the data of the current chunk (`{}`) and read in {}(): what that method does with a line depends on where the stream was cut into chunks'.format(attr, node_text(store, 100), name_))
+    if not bad:
+        rep.holds('chunk state', methods_['process_data_stream_chunk'], 'state derived from a chunk ({}) is read only by the chunk handler, the end-of-stream handler and the constructor'.format(', '.join(sorted(chunk_state))))
